@@ -118,5 +118,6 @@ def harnesses(tier, seed):
         call = "ob_resolve(C, v)"
         hs.append(Harness(f"resolve.{c['wname']}.{c['label']}", "props.l8", f"v: {a}", call + "[0]", replay_call=call,
                           setup=f"C = case({i}, {th})", what=f"resolution {c['wname']} -> {c['label']}",
+                          samples=[(v,) for v in shape.samples(c["wir"], c["wnames"], c["cfg"], seed + 7, n=2)],
                           key=f"resolve:{c['label'].split('@')[0]}"))
     return hs
